@@ -174,9 +174,9 @@ func (sesh *Session) OpenStream() (*Stream, error) {
 
 // Accept is similar to net.Listener's Accept(). It blocks and returns an incoming stream
 func (sesh *Session) Accept() (net.Conn, error) {
-	if sesh.IsClosed() {
-		return nil, ErrBrokenSession
-	}
+	// no test of the closed flag here: closing the session closes acceptCh, and a closed channel still hands
+	// out what was queued - a stream whose peer has written, closed and gone before we got to accept it
+	// must be accepted so that its data can be read - and then nil
 	stream := <-sesh.acceptCh
 	if stream == nil {
 		return nil, ErrBrokenSession
